@@ -89,6 +89,14 @@ theorem immsOf_lhs {env : CEnv} {lhs : CExpr} {op : String} {ce : CE} {r : ILEff
 
 theorem utT_width : utT.width = 32 := rfl
 
+theorem ok_bind {ε α β : Type} (a : α) (f : α → Except ε β) : (Except.ok a >>= f) = f a := rfl
+
+/-- the init effect of a loop over one of the special ut32 identifiers: the shape the pure model hardcodes -/
+theorem forInitH_utT (env : CEnv) (v : String) :
+    forInitH env v utT = .ok (.setl v (.cast 32 .bfalse (.const true 32 0))) := by
+  unfold forInitH
+  rw [if_pos (by decide)]
+
 mutual
 /-- **statement level** -/
 theorem compileStmtH_eq (env : CEnv) :
@@ -214,10 +222,10 @@ theorem compileStmtH_eq (env : CEnv) :
           simp only [map_ok, chk_id _ _ _ hpb h1, chk_id _ _ _ hpb h2]
           rfl
   | .for_ v c step b, st, hf, hs, hl, hp => by
-      simp only [HybFreeS, Bool.and_eq_true, Bool.not_eq_eq_eq_not, Bool.not_true] at hf
-      obtain ⟨⟨hv, hfc⟩, hfb⟩ := hf
+      simp only [HybFreeS, Bool.and_eq_true, Bool.not_eq_eq_eq_not, Bool.not_true, beq_iff_eq] at hf
+      obtain ⟨⟨⟨hv, hfc⟩, hfb⟩, hlt⟩ := hf
       simp only [HSameS, Bool.and_eq_true] at hs
-      simp only [compileStmtH, compileStmt]
+      simp only [compileStmtH, compileStmt, hlt, forInitH_utT, ok_bind]
       rw [chk_nt _ _ _ (by simp only [tmpsOfEffect, tmpsOfPure, hv, Bool.false_eq_true, ↓reduceIte, List.append_nil])]
       simp only
       rw [compileExprH_eq env c st hfc hs.1 hl hp.noGcc]
